@@ -3,6 +3,7 @@ CONSTANTS
   Events <- MCEvents
   RegEvents <- MCReg
   Prios <- MCPrios
+  Spawns <- NoSpawns
   MaxListeners = 5
   Depth = 0
 INVARIANT DispatchCorrect
